@@ -52,14 +52,17 @@ type GOp struct {
 
 // Plan is a generic-controller simulation plan.
 type Plan struct {
-	Ctrl        string `json:"ctrl"` // transform transform-fin transform-ignore qtransform qtransform-until qtransform-while
-	Cleanup     bool   `json:"cleanup"`
-	Conc        int    `json:"conc"`
-	DropIDs     []int  `json:"drop"`
-	TransformMs int    `json:"transformms"`
-	ErrPattern  []int  `json:"errpattern"`
-	StoreFaults []int  `json:"storefaults"`
-	Script      []GOp  `json:"script"`
+	Ctrl    string `json:"ctrl"` // transform transform-fin transform-ignore qtransform qtransform-until qtransform-while
+	Cleanup bool   `json:"cleanup"`
+	// Combine (with Cleanup): the cleanup controller uses cleanup.Combine of two RemoveOutputs handlers, the first for
+	// dependants of type GC (script argument 0), the second for type GD (argument 1).
+	Combine     bool  `json:"combine,omitempty"`
+	Conc        int   `json:"conc"`
+	DropIDs     []int `json:"drop"`
+	TransformMs int   `json:"transformms"`
+	ErrPattern  []int `json:"errpattern"`
+	StoreFaults []int `json:"storefaults"`
+	Script      []GOp `json:"script"`
 	// ReactOut lists the ids whose output has a reactive third party: the moment it sees the output turn
 	// tearing-down it places its finalizer on it (legal: finalizers may be added in any phase), i.e. right
 	// between the controller's Teardown and Destroy of that output.
@@ -92,6 +95,10 @@ func Gen(ctrls []string) func(t *rapid.T) Plan {
 			Conc:        rapid.IntRange(1, 4).Draw(t, "conc"),
 			TransformMs: rapid.SampledFrom([]int{0, 0, 10, 200, 1500}).Draw(t, "transformms"),
 			Release:     rapid.IntRange(0, 3).Draw(t, "release") > 0,
+		}
+
+		if p.Cleanup {
+			p.Combine = rapid.Bool().Draw(t, "combine")
 		}
 
 		if rapid.IntRange(0, 3).Draw(t, "hasdrop") == 0 {
@@ -228,6 +235,15 @@ func Run(p Plan) *Result {
 	synctest.Test(hk.T(), func(*testing.T) { res = runBubble(p) })
 
 	return res
+}
+
+// depType is the type of the dependant addressed by a script argument.
+func depType(p Plan, arg int) string {
+	if p.Combine && arg == 1 {
+		return hres.TypeGD
+	}
+
+	return hres.TypeGC
 }
 
 func dropped(p Plan, id string) bool {
@@ -420,6 +436,12 @@ func runBubble(p Plan) *Result {
 			return state.WithLabelQuery(resource.LabelEqual("parent", in.Metadata().ID()))
 		})
 
+		if p.Combine {
+			inner = cleanup.Combine(inner, cleanup.RemoveOutputs[*hres.D](func(in *hres.A) state.ListOption {
+				return state.WithLabelQuery(resource.LabelEqual("parent", in.Metadata().ID()))
+			}))
+		}
+
 		regErr = w.RT.RegisterController(cleanup.NewController(cleanup.Settings[*hres.A]{
 			Name:    CleanupName,
 			Handler: &recHandler{Handler: inner, w: w, mu: &hmu, res: res},
@@ -534,15 +556,19 @@ func runBubble(p Plan) *Result {
 				hold(hres.TypeGB+"/"+id+"/"+ExtB, false)
 			}
 		case "c-create":
-			c := hres.NewC(id+strconv.Itoa(op.Arg), "dep")
+			var c resource.Resource = hres.NewC(id+strconv.Itoa(op.Arg), "dep")
+			if p.Combine && op.Arg == 1 {
+				c = hres.NewD(id+strconv.Itoa(op.Arg), "dep")
+			}
+
 			c.Metadata().Labels().Set("parent", id)
 			_ = ext.Create(ctx, c)
 		case "c-addfin":
-			_ = ext.AddFinalizer(ctx, resource.NewMetadata("n1", hres.TypeGC, id+strconv.Itoa(op.Arg), resource.VersionUndefined), "extC")
+			_ = ext.AddFinalizer(ctx, resource.NewMetadata("n1", depType(p, op.Arg), id+strconv.Itoa(op.Arg), resource.VersionUndefined), "extC")
 		case "c-remfin":
-			_ = ext.RemoveFinalizer(ctx, resource.NewMetadata("n1", hres.TypeGC, id+strconv.Itoa(op.Arg), resource.VersionUndefined), "extC")
+			_ = ext.RemoveFinalizer(ctx, resource.NewMetadata("n1", depType(p, op.Arg), id+strconv.Itoa(op.Arg), resource.VersionUndefined), "extC")
 		case "c-destroy":
-			_ = ext.Destroy(ctx, resource.NewMetadata("n1", hres.TypeGC, id+strconv.Itoa(op.Arg), resource.VersionUndefined))
+			_ = ext.Destroy(ctx, resource.NewMetadata("n1", depType(p, op.Arg), id+strconv.Itoa(op.Arg), resource.VersionUndefined))
 		}
 	}
 
@@ -569,8 +595,8 @@ func runBubble(p Plan) *Result {
 				hold(hres.TypeGB+"/"+id+"/"+ExtB, false)
 			}
 
-			for _, sfx := range []string{"0", "1"} {
-				_ = ext.RemoveFinalizer(ctx, resource.NewMetadata("n1", hres.TypeGC, id+sfx, resource.VersionUndefined), "extC")
+			for arg, sfx := range []string{"0", "1"} {
+				_ = ext.RemoveFinalizer(ctx, resource.NewMetadata("n1", depType(p, arg), id+sfx, resource.VersionUndefined), "extC")
 			}
 		}
 	}
